@@ -83,17 +83,24 @@ def _purity_job(args):
     return obs
 
 
+FORMATS = ("json", "yaml", "plist", "xml", "csv")
+
+
 def render(diff):
-    from graphtage.json import JSONFormatter
+    """Digest of the diff rendered by every output formatter (process-wide default instances, as the command uses them)."""
+    import graphtage
     from graphtage.printer import Printer
     from harness.cli import _Stream
-    out = _Stream()
-    p = Printer(out, ansi_color=False, quiet=True)
-    try:
-        JSONFormatter.DEFAULT_INSTANCE.print(p, diff)
-    except Exception as ex:
-        return "raised:" + type(ex).__name__
-    return digest(out.getvalue())
+    out = []
+    for name in FORMATS:
+        s = _Stream()
+        p = Printer(s, ansi_color=False, quiet=True)
+        try:
+            graphtage.FILETYPES_BY_TYPENAME[name].get_default_formatter().print(p, diff)
+            out.append(name + ":" + digest(s.getvalue()))
+        except Exception as ex:
+            out.append(name + ":raised:" + type(ex).__name__)
+    return " ".join(out)
 
 
 def _init():
@@ -147,7 +154,8 @@ def run():
     # (b) purity and repeated calls in one process -----------------------------------------------------------
     cases = corpus.gen_cases("random", 250 if t == "quick" else 4000, 7) + corpus.gen_cases("skewed", 60 if t == "quick" else 600, 7) \
         + corpus.gen_cases("xml", 60 if t == "quick" else 600, 7) + corpus.gen_cases("mset", 40 if t == "quick" else 400, 7) \
-        + corpus.gen_cases("repeatstr", 1500 if t == "quick" else 12000, 7)
+        + corpus.gen_cases("repeatstr", 1500 if t == "quick" else 12000, 7) \
+        + corpus.gen_cases("multiline", 150 if t == "quick" else 1500, 7)
     with ctx.Pool(min(16, os.cpu_count() or 4), initializer=_init, maxtasksperchild=300) as pool:
         pur = pool.map(_purity_job, [(c, 7) for c in cases], chunksize=8)
     verdicts, st = functional.validate_groups(pur, name="C07-purity")
@@ -167,7 +175,8 @@ def run():
                 "dictionary strategy none and -e), each run as a real sub-process under PYTHONHASHSEED in %s; (b) corpus "
                 "pairs (random JSON, skewed, XML, multisets) diffed in-process with structural snapshots of both input "
                 "trees before/after diff(), edits()+refinement, get_all_edits(), and a second diff() compared with the "
-                "first (cost and JSON rendering); distinct by case; all non-trivial" % (n_pairs, seeds))
+                "first (cost and the rendering by every output formatter: json, yaml, plist, xml, csv); plus pairs with repeated "
+                "strings and with multi-line strings; distinct by case; all non-trivial" % (n_pairs, seeds))
     chk.assumptions = ["object addresses (allocation order) cannot be scheduled from outside the interpreter: only hash seeds "
                        "and repetition are varied",
                        "a snapshot covers node classes, structure, content hashes, parent links, option flags and the "
